@@ -82,7 +82,11 @@ class CacheStateDomain(NormDomain):
         return self.derived[key]
 
     def _is_crop_index(self, idx):
-        return isinstance(idx, Tup) and len(idx.items) == 2 and all(isinstance(x, Slice) for x in idx.items)
+        if isinstance(idx, Tup) and len(idx.items) == 2 and all(isinstance(x, Slice) for x in idx.items):
+            return True
+        # an index value that was not followed (a tuple of slices built by a helper or a comprehension): whatever window it is, the arrays
+        # indexed with this very object are cut the same way -- the versions derived from it are keyed by the object's identity
+        return isinstance(idx, Unknown)
 
     # -- hooks -------------------------------------------------------------
     def getattr(self, v, name, node):
